@@ -1,8 +1,8 @@
-\* quick facet "fee": one or two requests whose cost depends on edited fees / treasuries / script code; limits and balances at the boundary
+\* quick facet "fee": requests whose cost depends on edited fees / treasuries / script code; limits and balances at the boundary
 CONSTANTS
   Val = {v1, v2}
   Stranger = {}
-  MaxReq = 2
+  MaxReq = 1
   ExpSet = {2}
   PenaltySet = {2}
   DtSet = {1}
@@ -10,7 +10,7 @@ CONSTANTS
   MinSet = {1}
   ShapeSet = {"exact"}
   Chan = {"c0"}
-  Payer = {"p1", "p2"}
+  Payer = {"p1"}
   Acct = {"own"}
   Treas = {"t1", "t2", "t3"}
   MaxDs = 3
@@ -25,6 +25,9 @@ CONSTANTS
   DsContSet = {"dnm"}
   OsCodeSet = {"wfail", "w3"}
   FeeSet = {0, 2}
+  DsEditSet = {1}
+  OsEditSet = {2}
+  TreasTry = {"t1", "t2"}
   HowSet = {}
   FlipSet = {}
   StepSet = {}
